@@ -32,7 +32,7 @@ PY = "/venv/bin/python"
 REPO = os.path.realpath(os.environ.get("VERIF_REPO", "/repo"))
 WORLD = os.path.join(HERE, "world.py")
 SCRATCH_TOP = os.path.join(os.environ.get("VERIF_TMP", "/tmp"), f"mdsim-{os.getpid()}")
-WORLD_TIMEOUT = 300
+WORLD_TIMEOUT = int(os.environ.get("VERIF_WORLD_TIMEOUT", "1200"))
 NPROC = int(os.environ.get("VERIF_JOBS", "0")) or min(16, os.cpu_count() or 4)
 
 _counter = [0]
@@ -232,16 +232,24 @@ class Tester:
 
     def many(self, scns):
         scns = list(scns)
-        n = max(0, min(len(scns), self.budget.left))
-        self.budget.left -= n
-        self.budget.used += n
-        if n == 0:
-            return [False] * len(scns)
-        try:
-            outs_all = run_many(scns[:n])
-        except Exception:  # noqa: BLE001
-            return [False] * len(scns)
-        return [self._judge(s, o) for s, o in zip(scns, outs_all)] + [False] * (len(scns) - n)
+        out = []
+        # sub-batches, so that the wall budget is honoured and a hit ends the round early
+        for c0 in range(0, len(scns), NPROC):
+            part = scns[c0 : c0 + NPROC]
+            n = max(0, min(len(part), self.budget.left))
+            if n == 0:
+                break
+            self.budget.left -= n
+            self.budget.used += n
+            try:
+                outs_all = run_many(part[:n])
+            except Exception:  # noqa: BLE001
+                break
+            res = [self._judge(s, o) for s, o in zip(part, outs_all)]
+            out += res
+            if any(res):
+                break
+        return out + [False] * (len(scns) - len(out))
 
 
 def make_test(clause, budget):
@@ -607,10 +615,11 @@ def run_check(prop, tier, master, only_index=None):
                 _, m = mechanism_c09(cand, t)
                 pre = tuple(m)
             groups.setdefault((clause, pre), []).append((i, scn, v))
+    post_deadline = time.time() + float(os.environ.get("VERIF_POST_WALL", "300" if tier == "quick" else "1200"))
     for (clause, pre), members in sorted(groups.items()):
         for i, scn, v in members[:1]:
             dbg("minimise", clause, pre, "scenario", i)
-            small, used = minimise(scn, v)
+            small, used = minimise(scn, v, wall=max(5.0, min(float(os.environ.get("VERIF_MIN_WALL", "90")), post_deadline - time.time())))
             dbg("minimised in", used, "runs")
             outs = run_many([small], verbose=True)[0]
             sviols, serrs = evaluate(small, outs)
